@@ -324,6 +324,8 @@ func c14(w *core.World, r *core.Report) {
 			}
 		}
 	}
+	r.Rule("R12.3", "a unit's end offset is the end of its last source command (the EXEC for a source transaction): start offset + decoder offset of the same iteration (shared with C12)", 4)
+	ruleOffsetPlumbing(w, r)
 }
 
 func ruleSaveBeforeDelete(w *core.World, r *core.Report) {
@@ -343,6 +345,19 @@ func ruleSaveBeforeDelete(w *core.World, r *core.Report) {
 				continue
 			}
 			if core.Dominates(in, x) && core.OnSuccessOf(x.Block(), sv) {
+				// ... and what was saved is the frontier that covers the records: never the snapshot that was
+				// loaded (the very state the records lie beyond)
+				if c, isC := sv.(*ssa.Call); isC && len(c.Call.Args) >= 3 {
+					if core.DependsOn(c.Call.Args[2], func(v ssa.Value) bool {
+						lc, ok := v.(*ssa.Call)
+						return ok && core.ResolveCall(lc).Name == "pkg/redis/checkpoint.LoadBisyncFrontierSnapshot"
+					}) && !core.DependsOn(c.Call.Args[2], func(v ssa.Value) bool {
+						lc, ok := v.(*ssa.Call)
+						return ok && core.ResolveCall(lc).Name == "pkg/redis/checkpoint.RebuildBisyncFrontier"
+					}) {
+						continue
+					}
+				}
 				return true
 			}
 		}
